@@ -51,6 +51,10 @@ def _inputs(rng, tier):
         elif how == 4 and b and b[-1]:
             b[-1] = b[-1][:-1] + [[list(b[-1][-1][0][:1]), list(b[-1][-1][1])], [list(b[-1][-1][0][1:]), list(b[-1][-1][1])]]   # other run boundaries
         yield {"op": "fseq", "a": a, "b": b, "ign": k % 2, "wider": int(how == 5)}
+    # dumb: FSArray.dumb_display writes every row's terminal string and a newline to sys.stdout, whatever the terminal size
+    for k in range(300 * n):
+        a = arr()
+        yield {"op": "dumb", "a": a, "wider": k % 2}
     # normslice: lengths 0..4, every int index and every slice with bounds in -6..6 / None, with and without a step
     for ln in range(0, 5):
         for i in range(-7, 8):
@@ -115,6 +119,21 @@ def _execute(inp):
         except Exception as e:  # noqa
             ev["res"] = {"k": "exc", "t": enc.exc_name(e)}
         ev["fmt"] = enc.enc_text(simple_format(a))
+        return [ev]
+    if op == "dumb":
+        import contextlib
+        import io
+        rows = [enc.build_fmtstr(r) for r in inp["a"]]
+        a = fsarray(rows, width=max([len(r) for r in rows] + [0]) + 3) if inp["wider"] else fsarray(rows)
+        ev["a"] = [enc.enc_fmtstr(r) for r in a.rows]
+        buf = io.StringIO()
+        try:
+            with contextlib.redirect_stdout(buf):
+                r = a.dumb_display()
+            ev["res"] = {"k": "ok", "t": "" if r is None else "ReturnsSomething"}
+        except Exception as e:  # noqa
+            ev["res"] = {"k": "exc", "t": enc.exc_name(e)}
+        ev["out"] = enc.enc_text(buf.getvalue())
         return [ev]
     if op == "normslice":
         from curtsies.formatstring import normalize_slice
